@@ -350,9 +350,29 @@ func (n *Node) Call(fn func()) (panicText string) {
 	}
 	wd := time.NewTimer(120 * time.Second)
 	defer wd.Stop()
+	var limit <-chan time.Time
+	if n.w.CallBlockLimit > 0 {
+		lt := time.NewTimer(n.w.CallBlockLimit)
+		defer lt.Stop()
+		limit = lt.C
+	}
 	select {
 	case p := <-done:
 		return p
+	case <-limit:
+		// the call is blocked inside the node (e.g. waiting for a pending payment): the scenario
+		// continues, the call finishes in the background
+		n.w.blocked.Add(1)
+		n.w.Emit(n.Name, inc.N, "call.blocked", EvNote{})
+		go func() {
+			select {
+			case p := <-done:
+				n.w.Emit(n.Name, inc.N, "call.late-return", EvRet{Panic: p})
+			case <-dead:
+			}
+			n.w.blocked.Add(-1)
+		}()
+		return ""
 	case <-dead:
 		// give a goroutine that was about to finish the chance to report a panic
 		select {
